@@ -39,6 +39,9 @@ CHECKS = {
  'C08': dict(text="Machine-checked Lean 4 proofs from the defining relations alone, in any Q-algebra (so for every base dimension and every base signature at once): eo and einf are null, eo.einf=-1, E0*E0=1, up(x) is null, up(x).einf=-1, up(x).up(y) = -(x-y)^2/2, homo removes any scale s, and down(up(x))=x; plus a theorem that the model algebra of every conformalised layout (added signature [+1,-1]) satisfies those relations for every base vector. PARTIAL: gac/dpga/dg3c round trips have no theorem. Tied to /repo by comparing ConformalLayout's constants and up/down with the executable model for every (p,q) with p+q<=4 (<=6 thorough), by evaluating each identity on the real operators with integer/dyadic base vectors over 2^-10..2^20 and dyadic scales (exactly, or against the exact rational value), and by the down(up(x))=x round trips and exported blades/signatures of the shipped modules.",
              technique="Lean 4 proof (rewrite to normal-ordered monomials from the generator relations, closed by `module`) + correspondence with the executable conformal model",
              design="§6 C08"),
+ 'C11': dict(text="Machine-checked Lean 4 proofs (Mathlib matrices over any commutative ring, any source/destination sizes): LinearMatrix application is linear, adjoint satisfies <f(a),b> = <a,adj(b)> for the coefficient dot product, composition is the product matrix, from_function (images as columns) agrees with g on every basis blade and equals g when g is linear, the from_rotor generating function is linear. PARTIAL: the outermorphism laws (f(A^B)=f(A)^f(B), grade preservation, composition, f(I)=det(m)I) are not theorems yet: _make_outermorphism is modelled executably and the full matrix is compared with the implementation, and the laws are evaluated exactly on the implementation. Tied to /repo by comparing OutermorphismMatrix's full matrix with the model for integer matrices of every shape between layouts of dimension 0..4 (different signatures, custom orders), and evaluating the laws, from_function/from_rotor/adjoint, the wrong-layout and wrong-shape errors, and between_basis_vectors on the real code.",
+             technique="Lean 4 proof (matrix algebra for the LinearMatrix layer; partial) + correspondence with the executable outermorphism model",
+             design="§6 C11"),
 }
 
 def main():
